@@ -37,6 +37,7 @@ inductive SE
   | neg (e : SE)
   | bin (op : Op) (isBool : Bool) (l r : SE)
   | fn (keeps : Bool) (e : SE)            -- a function of a vector: `sort` (keeps the values) or `abs` (does not)
+  | agg (keeps : Bool) (e : SE)           -- an aggregation: `sum` / `min` / `max` / `avg` (the value of one sample) or `count`
 deriving Repr, Inhabited
 
 /-- `Source.Returns` is a vector -/
@@ -47,6 +48,7 @@ def isVec : SE → Bool
   | .neg e => isVec e
   | .bin _ _ l r => isVec l || isVec r
   | .fn _ _ => true
+  | .agg _ _ => true
 
 structure St where
   always : Bool     -- AlwaysReturns
@@ -81,6 +83,8 @@ def static : SE → St
   -- `parseCall` (after fix 5cb81d1): what was known about the argument's number is not known about the function's,
   -- unless the function only sorts or relabels
   | .fn keeps e => let s := static e; if keeps then s else { s with known := false, num := 0 }
+  -- `parseAggregation` / `walkAggregation` leave the four flags alone, whatever the aggregation does to the value
+  | .agg _ e => static e
 
 inductive Val
   | s (k : Int)             -- scalar
@@ -114,6 +118,9 @@ def eval : SE → Val
   | .fn keeps e => if keeps then eval e else match eval e with
     | .s k => .s (Int.natAbs k)
     | .v x => .v (x.map fun k => (Int.natAbs k : Int))
+  | .agg keeps e => if keeps then eval e else match eval e with
+    | .s k => .s k
+    | .v x => .v (x.map fun _ => 1)
 
 def closed : SE → Bool
   | .num _ => true
@@ -122,10 +129,12 @@ def closed : SE → Bool
   | .neg e => closed e
   | .bin _ _ l r => closed l && closed r
   | .fn _ e => closed e
+  | .agg _ e => closed e
 
-/-- every function in the expression keeps the values it is given -/
+/-- every function and aggregation in the expression keeps the values it is given -/
 def valueKeeping : SE → Bool
   | .fn keeps e => keeps && valueKeeping e
+  | .agg keeps e => keeps && valueKeeping e
   | .vector e => valueKeeping e
   | .neg e => valueKeeping e
   | .bin _ _ l r => valueKeeping l && valueKeeping r
@@ -136,6 +145,7 @@ def boolFree : SE → Bool
   | .vector e => boolFree e
   | .neg e => boolFree e
   | .fn _ e => boolFree e
+  | .agg _ e => boolFree e
   | _ => true
 
 /-- what the PromQL parser accepts: `vector` takes a scalar, a comparison between two scalars needs `bool` -/
@@ -144,6 +154,7 @@ def wellTyped : SE → Bool
   | .neg e => wellTyped e
   | .bin op isBool l r => wellTyped l && wellTyped r && (isVec l || isVec r || !op.isCmp || isBool)
   | .fn _ e => isVec e && wellTyped e
+  | .agg _ e => isVec e && wellTyped e
   | _ => true
 
 end Pint.StaticFlow
